@@ -18,12 +18,13 @@ use crate::jsonw::{emit, emit_violation, J};
 use crate::w_instance::Class;
 use crate::arg_u64;
 
-const ENTRIES: [&str; 17] = [
+const ENTRIES: [&str; 18] = [
     "registry::register", "registry::register_sigaction", "registry::register_unchecked", "registry::register_signal_unchecked",
     "low_level::register", "flag::register", "flag::register_usize", "flag::register_conditional_shutdown",
     "flag::register_conditional_default", "pipe::register", "pipe::register_raw", "Signals::new",
     "SignalsInfo<WithRawSiginfo>::new", "SignalsInfo<WithOrigin>::new", "Handle::add_signal", "SignalDelivery::with_pipe",
     "Handle::add_signal (closed instance)",
+    "SignalsInfo<WithRawSiginfo>: add_signal repeated 40 times",
 ];
 
 fn kernel_accepts(n: c_int) -> bool {
@@ -50,7 +51,7 @@ fn expected(entry: usize, n: c_int) -> Class {
                 Class::Err
             }
         }
-        11..=16 => {
+        11..=17 => {
             if n < 0 || n >= 128 || forbidden {
                 Class::Panic
             } else if kernel_accepts(n) {
@@ -127,6 +128,8 @@ fn call(e: usize, n: c_int, fd0: bool, problems: &mut Vec<String>) -> Class {
             }
         }
     }
+    let mut live_mark = 0i64;
+    let mut leak_growth = 0i64;
     let guard = if e <= 4 { Some(ReentrantGuard::new()) } else { None };
     let drops0 = GUARD_DROPS.load(Ordering::SeqCst);
     let had_guard = guard.is_some();
@@ -141,6 +144,12 @@ fn call(e: usize, n: c_int, fd0: bool, problems: &mut Vec<String>) -> Class {
             6 => signal_hook::flag::register_usize(n, uflag.clone(), 5).map(|_| ()),
             7 => signal_hook::flag::register_conditional_shutdown(n, 3, flag.clone()).map(|_| ()),
             8 => signal_hook::flag::register_conditional_default(n, flag.clone()).map(|_| ()),
+            9 if SHARED.with(|s| s.borrow().is_some()) => {
+                // a clone of a socket that an earlier registration (of another signal) still uses
+                let w = SHARED.with(|s| s.borrow().as_ref().unwrap().1.try_clone())?;
+                fd_to_check = Some(w.as_raw_fd());
+                signal_hook::low_level::pipe::register(n, w).map(|_| ())
+            }
             9 => {
                 let (a, b) = UnixStream::pair()?;
                 // with descriptor 0 free the end that got number 0 is the one handed over
@@ -160,6 +169,22 @@ fn call(e: usize, n: c_int, fd0: bool, problems: &mut Vec<String>) -> Class {
             14 => {
                 let s = Signals::new([libc::SIGWINCH])?;
                 let r = s.handle().add_signal(n);
+                keep.push(Box::new(s));
+                r
+            }
+            17 => {
+                // the same refused number again and again on one instance of an exfiltrator with per-signal storage: no attempt
+                // may leave anything behind
+                let s = SignalsInfo::<WithRawSiginfo>::new([libc::SIGWINCH])?;
+                let h = s.handle();
+                for i in 0..39 {
+                    if i == 2 {
+                        live_mark = crate::LIVE_BYTES.load(Ordering::SeqCst);
+                    }
+                    let _ = catch_unwind(AssertUnwindSafe(|| h.add_signal(n)));
+                }
+                leak_growth = crate::LIVE_BYTES.load(Ordering::SeqCst) - live_mark;
+                let r = h.add_signal(n);
                 keep.push(Box::new(s));
                 r
             }
@@ -190,6 +215,9 @@ fn call(e: usize, n: c_int, fd0: bool, problems: &mut Vec<String>) -> Class {
     if class != Class::Ok && had_guard && GUARD_DROPS.load(Ordering::SeqCst) != drops0 + 1 {
         problems.push(format!("what the refused action captured was dropped {} times (reference not released exactly once)", GUARD_DROPS.load(Ordering::SeqCst) - drops0));
     }
+    if class != Class::Ok && leak_growth > 4096 {
+        problems.push(format!("repeating the refused add_signal 37 more times left {} more bytes allocated: every refused attempt leaks", leak_growth));
+    }
     if class != Class::Ok {
         if Arc::strong_count(&flag) != 1 || Arc::strong_count(&uflag) != 1 {
             problems.push(format!("a refused registration kept a reference to the flag (strong counts {} / {})", Arc::strong_count(&flag), Arc::strong_count(&uflag)));
@@ -208,6 +236,8 @@ fn call(e: usize, n: c_int, fd0: bool, problems: &mut Vec<String>) -> Class {
 }
 
 thread_local! {
+    /// (read end, write end) of a socket pair whose write end is registered for SIGWINCH (context 1 of pipe::register)
+    static SHARED: std::cell::RefCell<Option<(UnixStream, UnixStream)>> = const { std::cell::RefCell::new(None) };
     static KEPT: std::cell::RefCell<Vec<Vec<Box<dyn std::any::Any>>>> = const { std::cell::RefCell::new(Vec::new()) };
 }
 
@@ -232,13 +262,24 @@ fn child(e: usize, n: c_int, context: u32, fd: i32) -> i32 {
         // and every ordinary signal): the checked entry points must still refuse the forbidden ones
         let _ = unsafe { signal_hook_registry::register_signal_unchecked(n, || ()) };
     }
-    if (11..=16).contains(&e) {
+    if (11..=17).contains(&e) {
         // these entry points register SIGWINCH first: let the library own that signal already
         let _ = unsafe { signal_hook_registry::register(libc::SIGWINCH, || ()) };
     }
     if e <= 4 {
         // the would-be action's captured guard owns a companion registration on SIGUSR1: the library owns that signal already
         let _ = unsafe { signal_hook_registry::register(libc::SIGUSR1, || ()) };
+    }
+    if e == 9 && context == 1 {
+        // an earlier registration (SIGWINCH) uses a socket; what is handed over below is another clone of that socket
+        let _ = unsafe { signal_hook_registry::register(libc::SIGWINCH, || ()) };
+        if let Ok((r0, w0)) = UnixStream::pair() {
+            if let Ok(c) = w0.try_clone() {
+                if signal_hook::low_level::pipe::register(libc::SIGWINCH, c).is_ok() {
+                    SHARED.with(|s| *s.borrow_mut() = Some((r0, w0)));
+                }
+            }
+        }
     }
     if context == 3 {
         // a process started with stdin closed: the next descriptor handed out is number 0
@@ -257,11 +298,20 @@ fn child(e: usize, n: c_int, context: u32, fd: i32) -> i32 {
             problems.push(format!("descriptor table changed by a refused registration: {:?} -> {:?}", fds_before, crate::sig::open_fds()));
         }
         // nothing of a refused iterator instance may be left in the registry
-        if (11..=16).contains(&e) {
+        if (11..=17).contains(&e) {
             let s0 = IT_STORED.load(Ordering::SeqCst);
             unsafe { libc::raise(libc::SIGWINCH) };
             if IT_STORED.load(Ordering::SeqCst) != s0 {
                 problems.push("an action of the refused iterator instance is still registered (it ran on a later delivery)".to_string());
+            }
+        }
+        // an earlier registration that shares its socket with the refused descriptor still delivers its wake-ups
+        let shared_r = SHARED.with(|s| s.borrow().as_ref().map(|p| p.0.as_raw_fd()));
+        if let Some(rfd) = shared_r {
+            let b0 = crate::sig::fionread(rfd);
+            unsafe { libc::raise(libc::SIGWINCH) };
+            if crate::sig::fionread(rfd) <= b0 {
+                problems.push("an earlier registration whose socket the refused descriptor was a clone of no longer delivers its wake-up byte (the shared socket was shut down)".to_string());
             }
         }
         // previously registered action still runs exactly once per delivery
@@ -363,7 +413,7 @@ pub fn main(args: &[String]) -> i32 {
                     bad.push((format!("outcome-class:{}", ename), format!("{}: outcome {:?}, expected {:?}", label, got, want)));
                 }
                 for l in res.out.lines().filter(|l| l.starts_with("BAD ")) {
-                    let s = if l.contains("still registered") { "refused-instance-left-registered" } else if l.contains("dispositions") { "dispositions-changed" } else if l.contains("descriptor") { "descriptor-left-open" }
+                    let s = if l.contains("shared socket") { "shared-socket-killed-by-refusal" } else if l.contains("every refused attempt leaks") { "refused-attempt-leaks" } else if l.contains("still registered") { "refused-instance-left-registered" } else if l.contains("dispositions") { "dispositions-changed" } else if l.contains("descriptor") { "descriptor-left-open" }
                         else if l.contains("reference") { "captured-state-not-released" } else if l.contains("previously") { "registry-disturbed" } else { "library-unusable-after-refusal" };
                     bad.push((format!("{}:{}", s, ename), format!("{} || {}", &l[4..], label)));
                 }
